@@ -123,7 +123,7 @@ int main(int argc, char **argv) {
                 if (fi + 1 >= argc) { emit("nofont"); continue; }
                 if (faces[k]) { gr_face_destroy(faces[k]); faces[k] = 0; }
                 if (a[2] == "f") { cbs[k].reset(); faces[k] = gr_make_file_face(argv[fi + 1], opts); }
-                else { cbs[k].reset(new CbFace(argv[fi + 1])); faces[k] = cbs[k]->make(opts); cbs[k]->sealed = true; }
+                else { cbs[k].reset(new CbFace(argv[fi + 1])); cbs[k]->fresh = (a[2] == "C"); faces[k] = cbs[k]->make(opts); cbs[k]->sealed = true; }
                 if (!faces[k]) emit("noface");
             } else if (c == 'N' && a.size() == 2) {
                 int f = atoi(a[0].c_str()) & 7; float ppm = atof(a[1].c_str());
@@ -173,6 +173,7 @@ int main(int argc, char **argv) {
                 size_t li = atoi(a[0].c_str());
                 if (li >= segs[k].lines.size()) { emit("noline"); continue; }
                 const gr_slot *start = segs[k].lines[li];
+                if (!start) { emit("nostart"); continue; }      // gr_seg_justify requires a start slot (empty segment)
                 std::vector<const gr_slot *> v;
                 for (const gr_slot *s = start; s && v.size() < 100000; s = gr_slot_next_in_segment(s)) v.push_back(s);
                 int fn = atoi(a[1].c_str()), fp = atoi(a[4].c_str()), lp = atoi(a[5].c_str());
@@ -198,7 +199,7 @@ int main(int argc, char **argv) {
             } else if (c == 'Q') {
                 emit(faces[k] ? faceinfo(faces[k]) : "noface");
             } else if (c == 'T') {
-                if (cbs[k]) { snprintf(buf, sizeof buf, "gets=%d rel=%d out=%d late=%d", cbs[k]->gets, cbs[k]->releases, cbs[k]->outstanding, cbs[k]->late_gets); emit(buf); }
+                if (cbs[k]) { snprintf(buf, sizeof buf, "gets=%d rel=%d out=%d late=%d bad=%d", cbs[k]->gets, cbs[k]->releases, cbs[k]->outstanding, cbs[k]->late_gets, cbs[k]->bad_releases); emit(buf); }
                 else emit("file");
             } else if (c == 'X') {
                 for (auto &s : segs) if (s.seg && s.face == k) { gr_seg_destroy(s.seg); s = SegRec(); }
